@@ -175,6 +175,33 @@ def forced_suite(ctx, vh, queue):
                        "case": r}, no_input=True)
 
 
+def stress_suite(ctx, vh):
+    """Real preemption, no hooks: producers and polling consumers run freely; nothing but the queue's own
+    signalling may deliver (poll timeout 60 s).  Covers what the gate cannot place (a thread between the
+    packet queue's append and its signal)."""
+    rows = ctx.vh_jsonl(vh, "queues", ["-mode", "stress", "-n", 6 if ctx.quick else 60, "-seed", ctx.seed])
+    if rows is None:
+        return
+    terms = [gpair(gnat(r["np"]), gnat(r["k"]), glist(ids(g or []) for g in r["got"]), gbool(r["stuck"])) for r in rows]
+    for r in rows:
+        ctx.count(1, nontrivial_key=("stress", r["queue"], r["nc"], r["np"], r["k"], json.dumps(r["got"]))
+                  if len([g for g in r["got"] if g]) > 1 or r["np"] > 1 else None,
+                  dist="stress:%s:%dc" % (r["queue"], r["nc"]))
+    hdr = "From Coq Require Import List NArith ZArith Bool.\nImport ListNotations.\nFrom SioV Require Import Sio.PacketQueueCheck.\n"
+    bad = ctx.coq_eval_cases("c19_stress", hdr, terms, "stress_oracle", shard=500)
+    ctx.obligation("oracle:stress", "oracle", not bad, "%d free-running runs (max %.1f ms from last add to last "
+                   "delivery), %d violate the property" % (len(rows), max([r["ms"] for r in rows] or [0]), len(bad)))
+    for i in bad[:2]:
+        r = rows[i]
+        ctx.fail_or_known(None,
+                          "%s queue, %d consumer(s) polling in a loop, %d producers x %d packets, free-running: %s"
+                          % (r["queue"], r["nc"], r["np"], r["k"],
+                             "packets still queued (%d) 3 s after the last add while the consumers wait"
+                             % r["qlen"] if r["stuck"] else "packets lost, duplicated or reordered"),
+                          {"kind": "failing-input", "engine": "queues", "mode": "stress", "case": r,
+                           "replay_cmd": "vh queues -mode stress -n 60 -seed %s" % ctx.seed})
+
+
 def live_suite(ctx, vh):
     n = 2 if ctx.quick else 6
     rows = ctx.vh_jsonl(vh, "queues", ["-mode", "live", "-n", n])
@@ -247,4 +274,5 @@ def run(ctx):
         return
     forced_suite(ctx, vh, "poll")
     forced_suite(ctx, vh, "packet")
+    stress_suite(ctx, vh)
     live_suite(ctx, vh)
